@@ -13,6 +13,15 @@ CHECKS = {
                 note="Trusted: my exact integer oracle (two independent copies, C++ and Python). Coordinates are "
                      "restricted to dyadic values for which all of gdstk's products are exact.",
                 technique="exhaustive enumeration + property-based testing (Hypothesis) vs exact winding-number oracle"),
+    "C20": dict(level="exploration", design="4 C20",
+                text="Model-based histories: generated operation sequences over Map/Set/TagMap/StyleMap with keys crafted to "
+                     "collide and wrap around the table end, through every growth step to capacity 2048; property-list "
+                     "histories vs an ordered multimap; sort/intro_sort/heap_sort/insertion_sort vs the ordered-permutation "
+                     "oracle; Array primitives vs a list model. Explores sampled histories, finds shallow and cluster-"
+                     "dependent defects, cannot prove absence.",
+                note="Trusted: Python dict/set/list models and my FNV-1a reimplementation (only used to aim keys). "
+                     "memcpy(NULL,NULL,0) UBSan reports are informational, other UB kinds fail the case.",
+                technique="model-based property testing of operation histories (Hypothesis) against dict/set/multimap models"),
 }
 
 NOT_YET = {}
